@@ -80,6 +80,34 @@ fn templates() -> Vec<Template> {
             ENSURE PROPOSITION ?p1 (?a, "prefers", ?n)
             ENSURE PROPOSITION ?p2 (?a, "prefers", ?n)
           }"#),
+        t("ensure-twice-named-anon", "ensure-same-new-tuple-twice", System,
+          r#"MUTATE {
+            CREATE CONCEPT ?n { TYPE "Preference" NAME "Light" }
+            UPSERT CONCEPT ?a { MATCH {type: "Person", key: "a"} SET FIELDS {name: "Ann"} }
+            ENSURE PROPOSITION ?p1 (?a, "prefers", ?n)
+            ENSURE PROPOSITION (?a, "prefers", ?n)
+          }"#),
+        t("ensure-twice-anon-named", "ensure-same-new-tuple-twice", System,
+          r#"MUTATE {
+            CREATE CONCEPT ?n { TYPE "Preference" NAME "Light" }
+            UPSERT CONCEPT ?a { MATCH {type: "Person", key: "a"} SET FIELDS {name: "Ann"} }
+            ENSURE PROPOSITION (?a, "prefers", ?n)
+            ENSURE PROPOSITION ?p2 (?a, "prefers", ?n)
+          }"#),
+        t("ensure-twice-anon-anon", "ensure-same-new-tuple-twice", System,
+          r#"MUTATE {
+            CREATE CONCEPT ?n { TYPE "Preference" NAME "Light" }
+            UPSERT CONCEPT ?a { MATCH {type: "Person", key: "a"} SET FIELDS {name: "Ann"} }
+            ENSURE PROPOSITION (?a, "prefers", ?n)
+            ENSURE PROPOSITION (?a, "prefers", ?n)
+          }"#),
+        t("assert-twice-one-tuple", "ensure-same-new-tuple-twice", System,
+          r#"MUTATE {
+            CREATE CONCEPT ?n { TYPE "Preference" NAME "Light" }
+            UPSERT CONCEPT ?a { MATCH {type: "Person", key: "a"} SET FIELDS {name: "Ann"} }
+            ASSERT (?a, "prefers", ?n) { by: ?a, mode: "stated", confidence: 0.7, at: "2026-03-02T00:00:00Z" }
+            ASSERT ?second (?a, "prefers", ?n) { by: ?a, mode: "observed", confidence: 0.4, at: "2026-03-03T00:00:00Z" }
+          }"#),
         t("ensure-twice-params", "ensure-same-new-tuple-twice", System,
           r#"MUTATE {
             ENSURE PROPOSITION ?p1 (:b_ref, "prefers", :d_ref)
@@ -165,6 +193,18 @@ fn templates() -> Vec<Template> {
           r#"SET RETENTION ?c {retention_class: "standard", expires_at: "2031-01-01T00:00:00Z"} WHERE { ?c CONCEPT {key: "n"} }"#),
         t("purge-denied", "purge-referenced", System,
           r#"PURGE :a REFERENCE POLICY "deny_if_referenced" CONFIRM "PURGE""#),
+        // --- PURGE: the one statement that may remove the past, and only when it commits
+        t("purge-commits", "purge-unreferenced", System, r#"PURGE :n CONFIRM "PURGE""#),
+        t("purge-then-key-conflict", "purge-with-clause-refused-at-commit", System,
+          r#"MUTATE {
+            PURGE :n CONFIRM "PURGE"
+            CREATE CONCEPT ?dup { TYPE "Person" NAME "Impostor" SET FIELDS {key: "a"} }
+          }"#),
+        t("key-conflict-then-purge", "purge-with-clause-refused-at-commit", System,
+          r#"MUTATE {
+            CREATE CONCEPT ?dup { TYPE "Person" NAME "Impostor" SET FIELDS {key: "b"} }
+            PURGE :n CONFIRM "PURGE"
+          }"#),
         // --- principals
         t("writer-mixed", "unauthorized-clause-in-block", Writer,
           r#"MUTATE {
@@ -411,6 +451,37 @@ fn check_step(
                     Some(_) => {}
                 }
             }
+            // A commit does not rewrite the past: every AS OF answer at an
+            // earlier sequence is unchanged — except that an explicit PURGE
+            // removes the purged element (and nothing else) from it.
+            let purged: Vec<String> = fresh
+                .iter()
+                .flat_map(|row| row["changes"].as_array().cloned().unwrap_or_default())
+                .filter(|change| change["op"] == json!("purge"))
+                .filter_map(|change| change["id"].as_str().map(|id| format!("\"{id}\"")))
+                .collect();
+            let without_purged = |answer: &Json| -> Json {
+                match answer["ok"].as_array() {
+                    Some(rows) if !purged.is_empty() => Json::Array(
+                        rows.iter().filter(|row| { let text = row.to_string(); !purged.iter().any(|id| text.contains(id)) }).cloned().collect(),
+                    ),
+                    _ => answer.clone(),
+                }
+            };
+            for label in &labels {
+                if !label.contains(" AS OF SEQ ") || (!purged.is_empty() && label.starts_with("FIND(COUNT")) {
+                    continue;
+                }
+                let (Some(was), Some(is)) = (before.get(label), after.get(label)) else { continue };
+                if without_purged(was) != without_purged(is) {
+                    violate(
+                        format!("C17|commit-rewrote-the-past|{}", tpl.shape),
+                        format!("`{label}` answered differently after the commit at {seq} (purged by it: {purged:?})"),
+                        json!({"label": label, "before": was, "after": is}),
+                    );
+                    break;
+                }
+            }
             for id in views_before.keys() {
                 if !views_after.contains_key(id) {
                     violate(
@@ -655,8 +726,15 @@ fn main() {
                     // the templates whose level-1 dry run got as far as the
                     // commit step in this Space (the others end in the same
                     // planning refusal as their commit-mode twin).
-                    if !thorough && depth > 1 && step.mode == Mode::DryRun && !dry_reaches_commit.contains(&(*w, step.t)) {
-                        return false;
+                    if !thorough && depth > 1 && step.mode == Mode::DryRun {
+                        if !dry_reaches_commit.contains(&(*w, step.t)) {
+                            return false;
+                        }
+                        // ... and once per shape class
+                        let first_of_shape = (0..step.t).all(|t| tpl[t].shape != tpl[step.t].shape || !dry_reaches_commit.contains(&(*w, t)));
+                        if !first_of_shape {
+                            return false;
+                        }
                     }
                     // PREVIEW KML cannot carry parameters: beyond depth 1 it is
                     // only enumerated for the templates that have none
@@ -712,6 +790,13 @@ fn main() {
             }
         }
         next.sort();
+        if !thorough {
+            // quick: one prefix per (Space, shape class) — templates of one
+            // shape commit the same kind of state (e.g. the seven ways of
+            // ENSUREing one new tuple twice)
+            let mut seen = std::collections::BTreeSet::new();
+            next.retain(|(w, history)| seen.insert((*w, history.iter().map(|s| tpl[s.t].shape).collect::<Vec<_>>())));
+        }
         completed_depth = depth;
         run.set(&format!("histories_depth_{depth}"), json!(total));
         run.set(&format!("frontier_after_depth_{depth}"), json!(next.len()));
@@ -725,7 +810,7 @@ fn main() {
          each prefix re-executed on a fresh Nexus restored from a bootstrapped InMemory snapshot; the last step of every \
          history is checked (full DUMP before/after); statements that leave the DUMP unchanged are chained on one instance, \
          any state-changing statement forces a rebuild; a history is extended only if its last step changed the observable state \
-         (quick: committed or refused-but-changed, from the seeded Space, second statement in commit and dry_run mode; thorough: also no_effect commits, every level-1 history, both Spaces, PREVIEW where it can carry the statement); distinct = (initial state, prefix, prefix outcomes, template, mode, outcome)",
+         (quick: committed or refused-but-changed, from the seeded Space, one prefix per shape class, second statement in commit mode and — once per shape class, where the dry run reaches the commit step — dry_run mode; thorough: also no_effect commits, every level-1 history, both Spaces, PREVIEW where it can carry the statement); distinct = (initial state, prefix, prefix outcomes, template, mode, outcome)",
     );
     run.assume("the DUMP (KQL over every kind and state incl. `pending`, counts, beliefs/slots pinned FOR TIME, DESCRIBE/LIST/HISTORY/CHANGES/SNAPSHOT/SEARCH, DESCRIBE TRANSACTION and HISTORY ELEMENT probes, AS OF reads at every earlier sequence) is what 'a query, meta command or historical read can observe'; the Governance audit (host API only) is not part of it");
     run.assume("statement parameters are resolved from the state before the statement by the harness (ids by logical key)");
